@@ -27,13 +27,20 @@ def isGraph (b : Nat) : Bool := decide (33 ≤ b) && decide (b ≤ 126)
 /-- printable ASCII including space -/
 def isPrint (b : Nat) : Bool := decide (32 ≤ b) && decide (b ≤ 126)
 
-/-- id: non-empty, graphic characters; description: printable, not starting or ending with a
-    space (trailing blanks are trimmed by every reader; a leading one belongs to the separator) -/
+/-- a byte of a header word: printable ASCII without space, or any byte of a multi-byte UTF-8 character (>= 128) -/
+def isWordByte (b : Nat) : Bool := isGraph b || decide (128 ≤ b)
+/-- a byte of a description: printable ASCII including space, or a byte >= 128 -/
+def isDescByte (b : Nat) : Bool := isPrint b || decide (128 ≤ b)
+
+/-- id: non-empty, word bytes; description: description bytes, not starting or ending with a
+    space (trailing blanks are trimmed by every reader; a leading one belongs to the separator).
+    Bytes >= 128 stand for the bytes of non-ASCII (UTF-8) characters; the reader model is
+    byte-based, and white space is ASCII white space. -/
 def wfHeader (r : SrcRec) : Bool :=
-  !r.id.isEmpty && r.id.all isGraph &&
+  !r.id.isEmpty && r.id.all isWordByte &&
   match r.desc with
   | none => true
-  | some d => !d.isEmpty && d.all isPrint && d.head? != some 32 && d.getLast? != some 32
+  | some d => !d.isEmpty && d.all isDescByte && d.head? != some 32 && d.getLast? != some 32
 
 /-- FASTA: bases are graphic characters other than `>` -/
 def wfFasta (r : SrcRec) : Bool := wfHeader r && r.seq.all fun b => isGraph b && b != 62
